@@ -170,10 +170,12 @@ def session(arg):
                     if not (termios.tcgetattr(osl)[3] & termios.ICANON):
                         break
                     time.sleep(0.005)
-                os.write(om, case['esc'].encode('latin-1'))
+                os.write(om, esc1.encode('latin-1'))
+            # twice == 'other': the earlier session had another escape character - the one given to a call is the one that counts for it
+            esc1 = case['esc'] if case['twice'] != 'other' else ('\x02' if case['esc'] != '\x02' else '\x03')
             th1 = threading.Thread(target=first_user, daemon=True); th1.start()
             try:
-                p.interact(escape_character=case['esc'])
+                p.interact(escape_character=esc1)
             except Exception as e:      # noqa
                 out['first_interact_error'] = type(e).__name__
             th1.join(3)
@@ -527,6 +529,8 @@ CORPUS = [
     dict(steps=[S_(b'bye'), ['quit']], esc=chr(29), split_out=True, poll=True),
     dict(steps=[S_(b'more'), T(b'ab' + ESC)], esc=chr(29), pending='hello world, this is pending text', twice=True),
     dict(steps=[T(ESC)], esc=chr(29), pending='pending after a first session', W=3, twice=True),
+    dict(steps=[T(b'a\x02b' + ESC + b'never')], esc=chr(29), twice='other'),
+    dict(steps=[S_(b'out'), T(b'xy' + ESC)], esc=chr(29), pending='text pending', twice='other'),
     dict(steps=[S_(b'x'), T(b'ab' + ESC)], esc=chr(29), odd_tty=True, poll=True),
     # poll mode with a descriptor number beyond what select() accepts (the reason use_poll exists): output, keystrokes, child exit
     dict(steps=[S_(b'last words'), ['quit']], esc=chr(29), poll=True, highfd=True),
@@ -607,7 +611,7 @@ def rand_case(rng):
     if rng.random() < 0.3:
         case['odd_tty'] = True
     if rng.random() < 0.25:
-        case['twice'] = True
+        case['twice'] = rng.choice([True, 'other'])
     if rng.random() < 0.25 and not case['pending']:
         case['split_out'] = True
     if steps[-1][0] == 'burst_exit' and steps[-1][1] <= 2500 and rng.random() < 0.6:
